@@ -120,6 +120,124 @@ theorem sort_code (truth : Term → Bool) :
         Term.app "init" [Term.sym "data", Term.sym "self"]]
       Out.ret [loop] (Term.app "._new" [Term.sym "self", Term.app "value-after-loop" [Term.sym "data", loop]]) := rfl
 
+/-! ### the in-place editors: one pass in list order, each position edited when it is reached and then yielded -/
+
+/-- `for item in self: <edit>; yield item`: the items are visited in list order, the edit of one position is complete
+    before the next position is looked at, and the object itself is handed on.  (An object that occurs at two positions
+    is therefore edited twice, the second time as the first visit left it — plain-loop semantics.) -/
+def onePass (edit : List Term) : Term :=
+  Term.app "for" [Term.sym "item", Term.sym "self", Term.app "block" (edit ++ [Term.app "yield" [Term.sym "item"]])]
+
+def setItem (key value : Term) : Term := Term.app "store" [Term.app "getitem" [Term.sym "item", key], value]
+
+/-- `for key, function in pairs: item[key] = function(item)` — the pairs in the order given, each function seeing the
+    item as the previous pairs left it. -/
+def applyPairs : Term :=
+  Term.app "for" [Term.app "tuple" [Term.sym "key", Term.sym "function"], Term.app ".items" [Term.sym "key_function_pairs"],
+    Term.app "block" [setItem (Term.sym "key") (Term.app "call" [Term.sym "function", Term.sym "item"])]]
+
+theorem modify_code (truth : Term → Bool) : ListOfDicts_modify truth = Out.fall [onePass [applyPairs]] := rfl
+
+/-- modify_if tests the predicate on the item AT THE MOMENT IT IS REACHED (inside the one pass), not up front. -/
+theorem modify_if_code (truth : Term → Bool) :
+    ListOfDicts_modify_if truth = Out.fall [onePass
+      [Term.app "if" [Term.app "predicate" [Term.sym "item"], Term.app "block" [applyPairs], Term.app "block" []]]] := rfl
+
+/-- fill_missing_keys writes only keys the item does not have (`key not in item`); with no pairs, the keys are those of
+    `self.keys()` with value None. -/
+theorem fill_missing_keys_code (truth : Term → Bool) :
+    ListOfDicts_fill_missing_keys truth =
+      let pairs := if truth (Term.sym "key_value_pairs") then Term.sym "key_value_pairs"
+                   else Term.app "dict.fromkeys" [Term.app ".keys" [Term.sym "self"], Term.sym "None"]
+      Out.fall [onePass [Term.app "for" [Term.app "tuple" [Term.sym "key", Term.sym "value"], Term.app ".items" [pairs],
+        Term.app "block" [Term.app "if" [Term.app "NotIn" [Term.sym "key", Term.sym "item"],
+          Term.app "block" [setItem (Term.sym "key") (Term.sym "value")], Term.app "block" []]]]]] := by
+  unfold ListOfDicts_fill_missing_keys
+  cases truth (Term.sym "key_value_pairs") <;> rfl
+
+/-- unselect deletes exactly the named keys that are present, from the item itself. -/
+theorem unselect_code (truth : Term → Bool) :
+    ListOfDicts_unselect truth = Out.fall [onePass [Term.app "for" [Term.sym "key", Term.sym "keys",
+      Term.app "block" [Term.app "if" [Term.app "In" [Term.sym "key", Term.sym "item"],
+        Term.app "block" [Term.app "del" [Term.app "getitem" [Term.sym "item", Term.sym "key"]]], Term.app "block" []]]]]] := rfl
+
+/-! ### the methods that build new items or only rearrange -/
+
+/-- select: a NEW item per position holding the requested keys that are present, in the REQUESTED order. -/
+theorem select_code (truth : Term → Bool) :
+    ListOfDicts_select truth = Out.fall [Term.app "for" [Term.sym "item", Term.sym "self", Term.app "block"
+      [Term.app "yield" [Term.app "AttributeDict" [Term.app "DictComp" [Term.app "pair" [Term.sym "x", Term.app "getitem" [Term.sym "item", Term.sym "x"]],
+        Term.app "in" [Term.sym "x", Term.sym "keys", Term.app "if" [Term.app "In" [Term.sym "x", Term.sym "item"]]]]]]]]] := rfl
+
+/-- rename: a NEW item per position; keys mapped through the inverted `to=from` pairs (all at once), values and key
+    order kept. -/
+theorem rename_code (truth : Term → Bool) :
+    ListOfDicts_rename truth =
+      let renames := Term.app "DictComp" [Term.app "pair" [Term.sym "v", Term.sym "k"],
+        Term.app "in" [Term.app "tuple" [Term.sym "k", Term.sym "v"], Term.app ".items" [Term.sym "to_from_pairs"], Term.app "if" []]]
+      Out.fall [Term.app "for" [Term.sym "item", Term.sym "self", Term.app "block"
+        [Term.app "assign" [Term.sym "keys", Term.app "ListComp" [Term.app ".get" [renames, Term.sym "x", Term.sym "x"],
+           Term.app "in" [Term.sym "x", Term.app ".keys" [Term.sym "item"], Term.app "if" []]]],
+         Term.app "yield" [Term.app "AttributeDict" [Term.app "zip" [Term.sym "keys", Term.app ".values" [Term.sym "item"]]]]]]] := rfl
+
+/-- append / extend / + : the receiver's items followed by the new ones (`itertools.chain`), the new item wrapped as an
+    AttributeDict when it is not one. -/
+theorem append_code (truth : Term → Bool) :
+    ListOfDicts_append truth =
+      let it := if truth (Term.app "isinstance" [Term.sym "item", Term.sym "AttributeDict"]) then Term.sym "item"
+                else Term.app "AttributeDict" [Term.sym "item"]
+      Out.fall [Term.app "yield-from" [Term.app "itertools.chain" [Term.sym "self", Term.app "list" [it]]]] := by
+  unfold ListOfDicts_append
+  cases truth (Term.app "isinstance" [Term.sym "item", Term.sym "AttributeDict"]) <;> rfl
+
+theorem extend_code (truth : Term → Bool) :
+    ListOfDicts_extend truth =
+      let o := if truth (Term.app "isinstance" [Term.sym "other", Term.app ".__class__" [Term.sym "self"]]) then Term.sym "other"
+               else Term.app ".__class__" [Term.sym "self", Term.sym "other"]
+      Out.fall [Term.app "yield-from" [Term.app "itertools.chain" [Term.sym "self", o]]] := by
+  unfold ListOfDicts_extend
+  cases truth (Term.app "isinstance" [Term.sym "other", Term.app ".__class__" [Term.sym "self"]]) <;> rfl
+
+theorem add_code (truth : Term → Bool) :
+    ListOfDicts_add truth =
+      if truth (Term.app "isinstance" [Term.sym "other", Term.sym "ListOfDicts"]) then
+        Out.fall [Term.app "yield-from" [Term.app "itertools.chain" [Term.sym "self", Term.sym "other"]]]
+      else Out.raise [] "TypeError" := by
+  unfold ListOfDicts_add
+  cases truth (Term.app "isinstance" [Term.sym "other", Term.sym "ListOfDicts"]) <;> rfl
+
+/-- insert IS `list.insert` on a copy of the item list (so every index — negative, beyond either end — means what it means
+    for a Python list). -/
+theorem insert_code (truth : Term → Bool) :
+    ListOfDicts_insert truth =
+      let it := if truth (Term.app "isinstance" [Term.sym "item", Term.sym "AttributeDict"]) then Term.sym "item"
+                else Term.app "AttributeDict" [Term.sym "item"]
+      let items := Term.app "list" [Term.sym "self"]
+      Out.fall [Term.app ".insert" [items, Term.sym "index", it], Term.app "yield-from" [items]] := by
+  unfold ListOfDicts_insert
+  cases truth (Term.app "isinstance" [Term.sym "item", Term.sym "AttributeDict"]) <;> rfl
+
+/-- `*`: the item sequence repeated `other` times (the same objects each time); `n * list` is the same call. -/
+theorem mul_code (truth : Term → Bool) :
+    ListOfDicts_mul truth =
+      if truth (Term.app "isinstance" [Term.sym "other", Term.sym "int"]) then
+        Out.fall [Term.app "for" [Term.sym "i", Term.app "range" [Term.sym "other"], Term.app "block" [Term.app "yield-from" [Term.sym "self"]]]]
+      else Out.raise [] "TypeError" := by
+  unfold ListOfDicts_mul
+  cases truth (Term.app "isinstance" [Term.sym "other", Term.sym "int"]) <;> rfl
+
+theorem rmul_code (truth : Term → Bool) :
+    ListOfDicts_rmul truth = Out.ret [] (Term.app ".__mul__" [Term.sym "self", Term.sym "other"]) := rfl
+
+theorem reverse_code (truth : Term → Bool) :
+    ListOfDicts_reverse truth = Out.fall [Term.app "yield-from" [Term.app "reversed" [Term.sym "self"]]] := rfl
+
+/-- indexing IS list indexing: an integer index gives the item itself, a slice gives `_new` of the list slice. -/
+theorem getitem_code (truth : Term → Bool) :
+    ListOfDicts_getitem truth =
+      let value := Term.app "super().__getitem__" [Term.sym "index"]
+      Out.ret [] (if truth (Term.app "isinstance" [value, Term.sym "list"]) then Term.app "._new" [Term.sym "self", value] else value) := rfl
+
 example : sliceIdx 5 (some (5 - 0)) none = [] ∧ sliceIdx 5 (some (-0)) none = [0, 1, 2, 3, 4] := by decide
 
 end DI.Tie.C15
